@@ -64,9 +64,10 @@ def main():
             flt = chk.replay_filter
             chk.violations = [x for x in chk.violations if (x["rule"], x["function"], x["key"]) == flt]
         rc = chk.finish()
-        print("%s %s tier=%s: %d rule instances, %d violation(s), %.1fs" % (
+        nk = getattr(chk, "n_known", 0)
+        print("%s %s tier=%s: %d rule instances, %d known finding(s), %d new violation(s), %.1fs" % (
             pid, "FAIL" if rc else "ok", a.tier, sum(r["instances"] for r in chk.rules.values()),
-            len(chk.violations), chk._t()))
+            nk, len(chk.violations) - nk, chk._t()))
         return rc
     except AnalysisBroken as e:
         return report.broken(pid, str(e))
